@@ -9,7 +9,7 @@ import json
 import os
 
 from sa import inline
-from sa.model import AnalysisError
+from sa.model import AnalysisError, norm, call_name, walk_no_nested
 
 HERE = os.path.dirname(os.path.dirname(os.path.abspath(__file__)))
 
@@ -291,16 +291,170 @@ def inline_mangle(cls, name):
     return name
 
 
+def flatten_record_attrs(program):
+    """Scalar replacement of a record-typed attribute: when an attribute S of a class is only ever bound to `D()` (D a dataclass of the
+    same module whose fields all have defaults) and only ever used as `self.S.<field>` or `self.S.<method of D>()`, the fields become
+    attributes `self.<S>_<field>` of the class itself, `self.S = D()` becomes the field initialisations and the (argument-less) methods
+    of D are written out where they are called.  Grouping the state of an object in a dataclass changes nothing the rules care about;
+    they go on seeing one attribute per piece of state.  Returns the number of flattened attributes."""
+    done = 0
+    for m in program.modules.values():
+        records = {}
+        for c in m.classes.values():
+            decos = {norm(d).split(".")[-1].split("(")[0] for d in c.node.decorator_list}
+            if "dataclass" not in decos:
+                continue
+            fields, ok = [], True
+            for st in c.node.body:
+                if isinstance(st, ast.AnnAssign) and isinstance(st.target, ast.Name):
+                    v = st.value
+                    if isinstance(v, ast.Constant):
+                        fields.append((st.target.id, v))
+                    elif isinstance(v, ast.Call) and call_name(v) == "field" and len(v.keywords) == 1 and v.keywords[0].arg == "default_factory" \
+                            and isinstance(v.keywords[0].value, ast.Name) and v.keywords[0].value.id in ("list", "dict", "set"):
+                        k = v.keywords[0].value.id
+                        fields.append((st.target.id, ast.List(elts=[], ctx=ast.Load()) if k == "list" else ast.Dict(keys=[], values=[]) if k == "dict"
+                                       else ast.Call(func=ast.Name(id="set", ctx=ast.Load()), args=[], keywords=[])))
+                    else:
+                        ok = False
+                elif isinstance(st, (ast.FunctionDef, ast.Expr, ast.Pass)):
+                    continue
+                else:
+                    ok = False
+            if ok and fields:
+                records[c.name] = (c, dict(fields), [f for f, _ in fields])
+        if not records:
+            continue
+        for c in m.classes.values():
+            if c.name in records:
+                continue
+            # candidate attributes: self.S = D()
+            cand = {}
+            for f in c.methods.values():
+                sn = f.params[0] if f.params else None
+                for n in walk_no_nested(f.node):
+                    if isinstance(n, (ast.Assign, ast.AnnAssign)):
+                        tgts = n.targets if isinstance(n, ast.Assign) else [n.target]
+                        for t in tgts:
+                            if isinstance(t, ast.Attribute) and isinstance(t.value, ast.Name) and t.value.id == sn:
+                                v = n.value
+                                if isinstance(v, ast.Call) and isinstance(v.func, ast.Name) and v.func.id in records and not v.args and not v.keywords:
+                                    cand.setdefault(t.attr, set()).add(v.func.id)
+                                else:
+                                    cand.setdefault(t.attr, set()).add(None)
+            for attr, kinds in list(cand.items()):
+                if len(kinds) != 1 or None in kinds:
+                    continue
+                D, fdefs, order = records[next(iter(kinds))]
+                dmeths = {n_: f_ for n_, f_ in D.methods.items()}
+                # every use must be self.S.<field> / self.S.<method>() / the binding itself
+                usable = True
+                for f in c.methods.values():
+                    sn = f.params[0] if f.params else None
+                    for n in ast.walk(f.node):
+                        if isinstance(n, ast.Attribute) and n.attr == attr and isinstance(n.value, ast.Name) and n.value.id == sn:
+                            par = getattr(n, "_parent", None)
+                            if isinstance(n.ctx, ast.Store):
+                                continue
+                            if isinstance(par, ast.Attribute) and par.value is n and (par.attr in fdefs or (
+                                    par.attr in dmeths and isinstance(getattr(par, "_parent", None), ast.Call) and par._parent.func is par
+                                    and not par._parent.args and not par._parent.keywords
+                                    and isinstance(getattr(par._parent, "_parent", None), ast.Expr))):
+                                continue
+                            usable = False
+                for dm in dmeths.values():
+                    dsn = dm.params[0] if dm.params else None
+                    if len(dm.params) != 1 or any(isinstance(x, (ast.Return, ast.Yield)) and getattr(x, "value", None) is not None for x in ast.walk(dm.node)) \
+                            or any(isinstance(x, ast.Name) and x.id == dsn and not isinstance(getattr(x, "_parent", None), ast.Attribute) for x in ast.walk(dm.node)):
+                        if any(isinstance(getattr(getattr(a_, "_parent", None), "_parent", None), ast.Call) for f in c.methods.values() for a_ in ast.walk(f.node)
+                               if isinstance(a_, ast.Attribute) and a_.attr == attr and isinstance(getattr(a_, "_parent", None), ast.Attribute)
+                               and a_._parent.attr == dm.name):
+                            usable = False
+                if not usable:
+                    continue
+
+                def flat(fname, attr=attr):
+                    return "%s_%s" % (attr, fname)
+
+                class RW(ast.NodeTransformer):
+                    def __init__(self, sn):
+                        self.sn = sn
+
+                    def visit_Attribute(self, n):
+                        self.generic_visit(n)
+                        if isinstance(n.value, ast.Attribute) and n.value.attr == attr and isinstance(n.value.value, ast.Name) and n.value.value.id == self.sn \
+                                and n.attr in fdefs:
+                            return ast.copy_location(ast.Attribute(value=ast.Name(id=self.sn, ctx=ast.Load()), attr=flat(n.attr), ctx=n.ctx), n)
+                        return n
+                for f in c.methods.values():
+                    sn = f.params[0] if f.params else None
+
+                    def block(stmts, sn=sn):
+                        out = []
+                        for st in stmts:
+                            if isinstance(st, (ast.FunctionDef, ast.AsyncFunctionDef, ast.ClassDef)):
+                                out.append(st)
+                                continue
+                            for owner, fld, lst in inline._stmt_lists(st):
+                                setattr(owner, fld, block(lst))
+                            # self.S = D()  ->  field initialisations
+                            if isinstance(st, (ast.Assign, ast.AnnAssign)):
+                                tgts = st.targets if isinstance(st, ast.Assign) else [st.target]
+                                if len(tgts) == 1 and isinstance(tgts[0], ast.Attribute) and tgts[0].attr == attr and isinstance(tgts[0].value, ast.Name) \
+                                        and tgts[0].value.id == sn:
+                                    for fn_ in order:
+                                        a_ = ast.Assign(targets=[ast.Attribute(value=ast.Name(id=sn, ctx=ast.Load()), attr=flat(fn_), ctx=ast.Store())],
+                                                        value=inline.clone(fdefs[fn_]))
+                                        ast.copy_location(a_, st)
+                                        ast.fix_missing_locations(a_)
+                                        out.append(a_)
+                                    continue
+                            # self.S.method()  ->  the method's statements on the flattened attributes
+                            if isinstance(st, ast.Expr) and isinstance(st.value, ast.Call) and isinstance(st.value.func, ast.Attribute) \
+                                    and isinstance(st.value.func.value, ast.Attribute) and st.value.func.value.attr == attr \
+                                    and isinstance(st.value.func.value.value, ast.Name) and st.value.func.value.value.id == sn \
+                                    and st.value.func.attr in dmeths:
+                                dm = dmeths[st.value.func.attr]
+                                dsn = dm.params[0]
+                                body = [inline.clone(x) for x in dm.node.body if not (isinstance(x, ast.Expr) and isinstance(x.value, ast.Constant))]
+
+                                class RD(ast.NodeTransformer):
+                                    def visit_Attribute(self, n):
+                                        self.generic_visit(n)
+                                        if isinstance(n.value, ast.Name) and n.value.id == dsn and n.attr in fdefs:
+                                            return ast.copy_location(ast.Attribute(value=ast.Name(id=sn, ctx=ast.Load()), attr=flat(n.attr), ctx=n.ctx), n)
+                                        return n
+                                for x in body:
+                                    x = RD().visit(x)
+                                    for y in ast.walk(x):
+                                        if hasattr(y, "lineno"):
+                                            y.lineno = st.lineno
+                                    ast.fix_missing_locations(x)
+                                    out.append(x)
+                                continue
+                            out.append(RW(sn).visit(st))
+                        return out
+                    f.node.body = block(f.node.body)
+                    inline.relink(f.node, getattr(f.node, "_parent", None))
+                done += 1
+    return done
+
+
 def normalise(program):
     known = _known()
     skipped = []
+    try:
+        nrec = flatten_record_attrs(program)
+    except Exception as e:
+        nrec = 0
+        skipped.append("records: %s" % type(e).__name__)
     try:
         setters = canonical_parser_setters(program)
     except Exception as e:
         setters = 0
         skipped.append("setters: %s" % type(e).__name__)
     roles = role_functions(program)
-    stats = {"inlined_call_sites": 0, "helpers": {}, "propagated_uses": 0, "constant_reads_inlined": 0}
+    stats = {"inlined_call_sites": 0, "helpers": {}, "propagated_uses": 0, "constant_reads_inlined": 0, "record_attributes_flattened": nrec}
 
     def single_expression(h):
         body = list(h.node.body)
